@@ -158,6 +158,26 @@ func c12Worlds() []c12World {
 		w = base()
 		w.Now.PckCrl = world.T0.AddDate(1, 0, 0)
 		add("fault/only-pck-crl-time-late", w, nil)
+		// collateral signer certificates that only path validation objects to (nothing else repeats that check:
+		// a level that checks more must not lose it)
+		for _, v := range []struct {
+			name string
+			spec world.CertSpec
+		}{
+			{"not-yet-valid", world.CertSpec{CN: world.CNTcb, Key: T.TcbKey, NotBefore: world.T0.AddDate(0, 1, 0), NotAfter: world.T0.AddDate(10, 0, 0)}},
+			{"eku-code-signing", world.CertSpec{CN: world.CNTcb, Key: T.TcbKey, ExtKeyUsage: []x509.ExtKeyUsage{x509.ExtKeyUsageCodeSigning}}},
+			{"is-a-ca-with-pathlen0", world.CertSpec{CN: world.CNTcb, Key: T.TcbKey, IsCA: true, MaxPathLen: -1}},
+		} {
+			signer := world.MakeCert(v.spec, T.Root, T.RootKey)
+			w = base()
+			w.TcbHdr = map[string][]string{world.HdrTcbInfo: {world.IssuerChainHeader(signer, T.Root)}}
+			w.BuildGetter()
+			add("fault/tcbinfo-signer-"+v.name, w, nil)
+			w = base()
+			w.QeHdr = map[string][]string{world.HdrQeIdentity: {world.IssuerChainHeader(signer, T.Root)}}
+			w.BuildGetter()
+			add("fault/qeidentity-signer-"+v.name, w, nil)
+		}
 		// an out-of-date re-issue of a CA certificate (same key and names) carried in the quote while the
 		// trusted pool holds the current one: whatever a level decides, a higher level must not accept more
 		for _, v := range []struct {
